@@ -123,6 +123,32 @@ def specToksL : List ANode → String
   | c :: cs => specToks c ++ specToksL cs
 end
 
+/-- The flattened node list `convert_import` hands to `convert_import_items` (everything from the
+opening parenthesis or the item list on, item lists replaced by their children). -/
+def importFlattened (nodes : List ANode) : List ANode :=
+  let div := (nodes.findIdx? fun c => c.kind == .leftParen || c.kind == .importItems).getD nodes.length
+  (nodes.drop div).flatMap fun c => if c.kind == .importItems then c.children else [c]
+
+mutual
+/-- The tree with the items of every import statement in the order the printer emits them for
+configuration `cfg` (`importOrder`): with reordering on, and when the statement is sortable (no
+comment in the list, no name bound twice), the children of its item list are sorted.  (The printer
+sorts the *flattened* list, parentheses and separators included; a stable sort orders the items among
+themselves exactly as sorting them alone does, and the other nodes carry no token or literal text.) -/
+def reorderTree (cfg : PConfig) : ANode → ANode
+  | .leaf k t a => .leaf k t a
+  | .inner k cs a =>
+    .inner k (reorderTreeL cfg (k == .moduleImport && cfg.reorder && importSortable (importFlattened cs)) cs) a
+def reorderTreeL (cfg : PConfig) (sortItems : Bool) : List ANode → List ANode
+  | [] => []
+  | c :: cs =>
+    (if sortItems && c.kind == .importItems then
+      (match c with
+        | .inner k ics a => ANode.inner k (stableSort importSortKey ics) a
+        | l => l)
+     else reorderTree cfg c) :: reorderTreeL cfg sortItems cs
+end
+
 mutual
 /-- No comment leaf and no verbatim node anywhere in the tree. -/
 def ANode.noCommentNoVerbatim : ANode → Bool
@@ -219,6 +245,15 @@ def printTwin (e : Env) (root : Node) : Except Reject (Twin.Doc × Nat) :=
 is the one the tree prescribes.  (Not meaningful with import reordering on: reordering permutes items.) -/
 def tokensCertified (root : Node) (d : Twin.Doc) : Bool :=
   d.good && d.toks == specToks (prepare root)
+
+/-- Token certificate with import reordering on: the prescribed text is that of the tree with the
+import items in the order `importOrder` gives them. -/
+def tokensCertifiedR (cfg : PConfig) (root : Node) (d : Twin.Doc) : Bool :=
+  d.good && d.toks == specToks (reorderTree cfg (prepare root))
+
+/-- Literal certificate with import reordering on. -/
+def literalsCertifiedR (cfg : PConfig) (root : Node) (d : Twin.Doc) : Bool :=
+  d.good && d.lits == specLit (reorderTree cfg (prepare root))
 
 /-- Comment certificate of a printed family (C06). -/
 def commentsCertified (root : Node) (d : Twin.Doc) : Bool :=
